@@ -74,12 +74,11 @@ def layout_runs(feats, placements=(0,)):
 
 def run(ctx):
     sd = os.path.join(vf.SPEC, SPEC_DIR)
-    ctx.tlc_mc("MetaConfig.tla", "MC_MetaConfig.cfg", spec_dir=sd, workers=4, timeout=900)
-    ctx.tlc_mc("MetaConfig.tla", "MC_MetaConfig_impl.cfg", spec_dir=sd, workers=4, timeout=900)
-    ctx.tlc_mc("MetaConfig.tla", "MC_MetaConfig_mutant_localbase.cfg", spec_dir=sd, workers=2,
-               expect_violation=True, timeout=600)
-    ctx.tlc_mc("MetaConfig.tla", "MC_MetaConfig_mutant_offset.cfg", spec_dir=sd, workers=2,
-               expect_violation=True, timeout=600)
+    sc.mc_parallel(ctx, sd, "MetaConfig.tla", [
+        ("MC_MetaConfig.cfg", dict(workers=2, timeout=900)),
+        ("MC_MetaConfig_impl.cfg", dict(workers=2, timeout=900)),
+        ("MC_MetaConfig_mutant_localbase.cfg", dict(workers=1, expect_violation=True, timeout=600)),
+        ("MC_MetaConfig_mutant_offset.cfg", dict(workers=1, expect_violation=True, timeout=600))])
     groups = [(fs, (0,)) for fs in QUICK_BUILDS]
     omitted = []
     if ctx.tier != "quick":
@@ -107,6 +106,8 @@ def run(ctx):
                                  "(build %s)" % ("+".join(fs) or "default"), timeout=1500)
         log = open(os.path.join(ctx.work, "tlc_t_layouts_%s.log" % ("+".join(fs) or "default"))).read()
         import re
+        sc.report_extra_tags(ctx, log, group, keyfn, "side-metadata layout of a configuration rejected "
+                             "by MetaConfig (build %s)" % ("+".join(fs) or "default"))
         hyp += sum(int(n) for n in re.findall(r"HYP_DECLS l=\d+ n=(\d+)", log))
         total_rows += rows
         configs += rows
